@@ -1,4 +1,8 @@
-"""C01 class layer: Array2D in both storage modes (bounded stand-in; see docs/BOUNDED_GUIDE.md)."""
+"""C01 class layer: Array2D / Grid2D / VectorYX2D / Array1D / Grid1D in both storage modes and the index lists a mask
+publishes (bounded stand-in; see docs/BOUNDED_GUIDE.md).
+
+Oracles are written with numpy boolean indexing (`values[~mask]` is row-major by definition of C order) and never with
+the repo's own slim/native kernels."""
 import numpy as np
 from pyvc.bounded import bounded
 from pyvc import gens
@@ -29,4 +33,307 @@ def array2d_native_input(mask, values, store_native):
     arr2 = aa.Array2D(values=want_slim.copy(), mask=mk, store_native=store_native)
     if not np.array_equal(np.asarray(arr2.native), want_native) or not np.array_equal(np.asarray(arr2.slim), want_slim):
         return "slim-input construction disagrees with native-input construction"
+    return None
+
+
+# ------------------------------------------------------------------------------------------------ shared helpers
+
+# shapes for the exhaustive part: every parity / aspect combination, rows and columns of length one, non-square both ways
+_SHAPES_Q = [(1, 1), (1, 2), (2, 1), (1, 3), (3, 1), (2, 2), (1, 5), (5, 1), (2, 3), (3, 2), (2, 4), (4, 2), (3, 3)]
+_SHAPES_T = _SHAPES_Q + [(1, 7), (7, 1), (2, 5), (5, 2), (2, 6), (6, 2), (3, 4), (4, 3)]
+
+
+def _mask_stream(rng, tier, nq, nt, hmax=7, wmax=6):
+    """every mask (>= 1 unmasked pixel) of the small shapes, then seeded random masks up to hmax x wmax (some with a
+    masked outer ring removed = unmasked pixels on the outer ring are the default here, some fully unmasked)"""
+    shapes = _SHAPES_T if tier == "thorough" else _SHAPES_Q
+    for m in gens.all_masks(shapes=shapes, min_unmasked=1):
+        yield m
+    for k in range(gens.budget(tier, nq, nt)):
+        if k % 10 == 9:
+            h, w = rng.randint(1, hmax), rng.randint(1, wmax)
+            yield np.zeros((h, w), dtype=bool)                       # nothing masked
+        else:
+            yield gens.random_mask(rng, hmax, wmax, min_unmasked=1)
+
+
+def _nontrivial_mask(mask, **_):
+    return 0 < mask.sum() < mask.size
+
+
+def _plain(x):
+    """the values of a structure as a plain ndarray (through the public ``.array`` attribute)"""
+    a = x.array
+    if type(a) is not np.ndarray:
+        return None
+    return a
+
+
+def _expect(label, struct, want, shape):
+    a = _plain(struct)
+    if a is None:
+        return "%s: .array is not a plain numpy array (%r)" % (label, type(struct.array))
+    if a.shape != tuple(shape):
+        return "%s: stored shape %r, expected %r" % (label, a.shape, tuple(shape))
+    if not np.array_equal(a, want):
+        return "%s: values %r, expected %r" % (label, a.tolist(), np.asarray(want).tolist())
+    if not np.array_equal(np.asarray(struct), want):
+        return "%s: np.asarray(structure) differs from structure.array" % label
+    return None
+
+
+def _check_forms(label, obj, want_slim, want_native, store_native, deep=True):
+    """`obj` was built with the given storage mode; every way of asking for a form must give the oracle form"""
+    stored = want_native if store_native else want_slim
+    slim, native = obj.slim, obj.native
+    forms = [("stored", obj, stored), (".slim", slim, want_slim), (".native", native, want_native),
+             (".slim.native", slim.native, want_native),           # slim -> native
+             (".native.slim", native.slim, want_slim)]             # native -> slim
+    if deep:
+        forms += [(".slim.native.slim", slim.native.slim, want_slim),      # slim -> native -> slim == slim
+                  (".native.slim.native", native.slim.native, want_native)]
+    for lab, s, want in forms:
+        msg = _expect("%s %s" % (label, lab), s, want, want.shape)
+        if msg:
+            return msg
+    return None
+
+
+# ------------------------------------------------------------------------------------------------ Array2D
+
+
+def _gen_array2d(rng, tier):
+    for m in _mask_stream(rng, tier, 200, 3000):
+        yield {"mask": m, "values": gens.reals(rng, m.shape)}
+
+
+@bounded("C01", "array2d-forms-both-modes", gen=_gen_array2d, nontrivial=_nontrivial_mask)
+def array2d_forms_both_modes(mask, values):
+    """C01: 'the slim form lists exactly the values of the unmasked pixels in row-major order (top row first, left to
+    right), and the native form holds those same values at their original pixel positions with every masked position
+    equal to zero, whichever form was supplied at construction ... converting slim to native and back returns the
+    identical slim values, and converting native to slim and back returns the native values with masked positions
+    zeroed' -- Array2D, native and slim input x store_native False/True, .slim/.native/.array and their compositions;
+    bound: every mask of 13 (21) shapes <= 9 (12) cells + 200 (3000) random masks <= 7x6."""
+    import autoarray as aa
+    mk = aa.Mask2D(mask=mask.copy(), pixel_scales=(1.0, 2.0), origin=(0.5, -1.0))
+    want_slim = values[~mask]
+    want_native = np.where(mask, 0.0, values)
+    for store_native in (False, True):
+        for form, inp in (("native", values), ("slim", want_slim)):
+            given = inp.copy()
+            obj = aa.Array2D(values=given, mask=mk, store_native=store_native)
+            if bool(obj.store_native) != store_native:
+                return "Array2D(%s input, store_native=%s).store_native is %r" % (form, store_native, obj.store_native)
+            msg = _check_forms("Array2D(%s input, store_native=%s)" % (form, store_native), obj, want_slim, want_native,
+                               store_native)
+            if msg:
+                return msg
+    # a structure handed to the constructor instead of an ndarray (the path .slim/.native use internally)
+    a_nat = aa.Array2D(values=values.copy(), mask=mk, store_native=True)
+    msg = _check_forms("Array2D(values=<native Array2D>)", aa.Array2D(values=a_nat, mask=mk), want_slim, want_native, False)
+    if msg:
+        return msg
+    a_slim = aa.Array2D(values=want_slim.copy(), mask=mk)
+    return _check_forms("Array2D(values=<slim Array2D>, store_native=True)", aa.Array2D(values=a_slim, mask=mk, store_native=True),
+                        want_slim, want_native, True)
+
+
+@bounded("C01", "array2d-apply-mask", gen=_gen_array2d, nontrivial=_nontrivial_mask)
+def array2d_apply_mask(mask, values):
+    """C01: 'the slim form lists exactly the values of the unmasked pixels in row-major order ... the native form holds
+    those same values at their original pixel positions with every masked position equal to zero' -- reached through
+    Array2D.no_mask(...).apply_mask(mask) (slim and native no_mask input); bound: as array2d-forms-both-modes."""
+    import autoarray as aa
+    mk = aa.Mask2D(mask=mask.copy(), pixel_scales=(2.0, 1.0))
+    want_slim = values[~mask]
+    want_native = np.where(mask, 0.0, values)
+    for form, inp in (("native", values.copy()), ("slim", values.reshape(-1).copy())):
+        full = aa.Array2D.no_mask(values=inp, shape_native=mask.shape, pixel_scales=(2.0, 1.0))
+        msg = _expect("no_mask(%s).native" % form, full.native, values, values.shape) or \
+            _expect("no_mask(%s).slim" % form, full.slim, values.reshape(-1), (values.size,))
+        if msg:
+            return msg
+        msg = _check_forms("no_mask(%s).apply_mask" % form, full.apply_mask(mask=mk), want_slim, want_native, False)
+        if msg:
+            return msg
+    return None
+
+
+# ------------------------------------------------------------------------------------------------ Grid2D / VectorYX2D
+
+
+def _gen_yx(rng, tier):
+    for m in _mask_stream(rng, tier, 200, 3000):
+        yield {"mask": m, "values": gens.reals(rng, m.shape + (2,))}
+
+
+@bounded("C01", "grid2d-forms-both-modes", gen=_gen_yx, nontrivial=_nontrivial_mask)
+def grid2d_forms_both_modes(mask, values):
+    """C01: 'the slim form of a ... (y,x) grid ... lists exactly the values of the unmasked pixels in row-major order
+    ..., and the native form holds those same values at their original pixel positions with every masked position equal
+    to zero, whichever form was supplied at construction' + both round trips -- Grid2D, arbitrary (y,x) pairs, native
+    [H,W,2] and slim [N,2] input x store_native False/True; bound: every mask of 13 (21) shapes <= 9 (12) cells + 200
+    (3000) random masks <= 7x6."""
+    import autoarray as aa
+    mk = aa.Mask2D(mask=mask.copy(), pixel_scales=(1.0, 2.0), origin=(0.5, -1.0))
+    want_slim = values[~mask]                                  # [N,2], row-major over pixels
+    want_native = np.where(mask[:, :, None], 0.0, values)
+    for store_native in (False, True):
+        for form, inp in (("native", values), ("slim", want_slim)):
+            obj = aa.Grid2D(values=inp.copy(), mask=mk, store_native=store_native)
+            msg = _check_forms("Grid2D(%s input, store_native=%s)" % (form, store_native), obj, want_slim, want_native,
+                               store_native)
+            if msg:
+                return msg
+    g_nat = aa.Grid2D(values=values.copy(), mask=mk, store_native=True)
+    return _check_forms("Grid2D(values=<native Grid2D>)", aa.Grid2D(values=g_nat, mask=mk), want_slim, want_native, False)
+
+
+def _gen_vec(rng, tier):
+    for m in _mask_stream(rng, tier, 40, 2000):
+        yield {"mask": m, "values": gens.reals(rng, m.shape + (2,)), "grid": gens.reals(rng, m.shape + (2,), special=False)}
+
+
+@bounded("C01", "vectoryx2d-forms-both-modes", gen=_gen_vec, nontrivial=_nontrivial_mask)
+def vectoryx2d_forms_both_modes(mask, values, grid):
+    """C01: 'the slim form of a ... vector field lists exactly the values of the unmasked pixels in row-major order ...,
+    and the native form holds those same values at their original pixel positions with every masked position equal to
+    zero, whichever form was supplied at construction' + both round trips -- VectorYX2D (vectors and the grid they sit
+    on), native and slim input x store_native False/True; bound: every mask of 13 (21) shapes <= 9 (12) cells + 40
+    (2000) random masks <= 7x6."""
+    import autoarray as aa
+    mk = aa.Mask2D(mask=mask.copy(), pixel_scales=(1.0, 2.0), origin=(0.5, -1.0))
+    want_slim = values[~mask]
+    want_native = np.where(mask[:, :, None], 0.0, values)
+    grid_slim = grid[~mask]
+    grid_native = np.where(mask[:, :, None], 0.0, grid)
+    for store_native in (False, True):
+        for form, inp, ginp in (("native", values, grid), ("slim", want_slim, grid_slim)):
+            obj = aa.VectorYX2D(values=inp.copy(), grid=ginp.copy(), mask=mk, store_native=store_native)
+            label = "VectorYX2D(%s input, store_native=%s)" % (form, store_native)
+            msg = _check_forms(label, obj, want_slim, want_native, store_native, deep=False)
+            if msg:
+                return msg
+            # the positions travel with the vectors through the same maps
+            v = obj.native if not store_native else obj.slim
+            msg = _expect(label + ".grid.slim", v.grid.slim, grid_slim, grid_slim.shape) or \
+                _expect(label + ".grid.native", v.grid.native, grid_native, grid_native.shape)
+            if msg:
+                return msg
+    return None
+
+
+# ------------------------------------------------------------------------------------------------ index lists
+
+
+def _gen_idx(rng, tier):
+    for m in _mask_stream(rng, tier, 1500, 20000, hmax=8, wmax=7):
+        yield {"mask": m}
+
+
+@bounded("C01", "mask2d-derive-indexes", gen=_gen_idx, nontrivial=_nontrivial_mask)
+def mask2d_derive_indexes(mask):
+    """C01: 'The slim-to-native and unmasked/masked index lists published by a mask are mutually consistent bijections:
+    slim index k denotes the k-th unmasked pixel in row-major order and the unmasked and masked lists partition the
+    flattened pixel indices' -- Mask2D.derive_indexes.native_for_slim / unmasked_slim / masked_slim (and pixels_in_mask);
+    bound: every mask of 13 (21) shapes <= 9 (12) cells + 1500 (20000) random masks <= 8x7."""
+    import autoarray as aa
+    H, W = mask.shape
+    mk = aa.Mask2D(mask=mask.copy(), pixel_scales=(1.0, 2.0), origin=(0.5, -1.0))
+    di = mk.derive_indexes
+    nfs, un, ma = np.asarray(di.native_for_slim), np.asarray(di.unmasked_slim), np.asarray(di.masked_slim)
+    # oracle straight from the statement: walk the pixels top row first, left to right
+    want_nfs, want_un, want_ma = [], [], []
+    for y in range(H):
+        for x in range(W):
+            if not mask[y, x]:
+                want_nfs.append((y, x)); want_un.append(y * W + x)
+            else:
+                want_ma.append(y * W + x)
+    N = len(want_un)
+    for name, a in (("native_for_slim", nfs), ("unmasked_slim", un), ("masked_slim", ma)):
+        if not np.issubdtype(a.dtype, np.integer):
+            return "%s has dtype %s, not an integer index type" % (name, a.dtype)
+    if int(mk.pixels_in_mask) != N:
+        return "pixels_in_mask = %r, but %d pixels are unmasked" % (mk.pixels_in_mask, N)
+    if nfs.shape != (N, 2) or nfs.tolist() != [list(t) for t in want_nfs]:
+        return "native_for_slim[k] is not the k-th unmasked pixel in row-major order: %r vs %r" % (nfs.tolist(), want_nfs)
+    if un.shape != (N,) or un.tolist() != want_un:
+        return "unmasked_slim is not the flattened index y*W+x of the k-th unmasked pixel: %r vs %r" % (un.tolist(), want_un)
+    if ma.shape != (H * W - N,) or ma.tolist() != want_ma:
+        return "masked_slim is not the list of flattened indices of masked pixels: %r vs %r" % (ma.tolist(), want_ma)
+    # mutual consistency + partition, stated on the published lists themselves
+    if not np.array_equal(nfs[:, 0] * W + nfs[:, 1], un):
+        return "native_for_slim and unmasked_slim disagree"
+    if len(set(map(tuple, nfs.tolist()))) != N or len(set(un.tolist())) != N:
+        return "slim -> native map is not injective"
+    if sorted(un.tolist() + ma.tolist()) != list(range(H * W)):
+        return "unmasked_slim and masked_slim do not partition range(H*W)"
+    if mask[nfs[:, 0], nfs[:, 1]].any():
+        return "native_for_slim points at a masked pixel"
+    # inverse direction: the rank of an unmasked pixel among unmasked pixels is its slim index
+    rank = np.cumsum(~mask.reshape(-1)) - 1
+    if not np.array_equal(rank[un], np.arange(N)):
+        return "slim index k is not the row-major rank of pixel unmasked_slim[k]"
+    return None
+
+
+# ------------------------------------------------------------------------------------------------ 1D
+
+
+def _gen_1d(rng, tier):
+    nmax = gens.budget(tier, 9, 13)
+    for n in range(1, nmax + 1):
+        for bits in range(2 ** n - 1):                               # all-masked (bits == 2**n-1) excluded
+            m = np.array([(bits >> i) & 1 for i in range(n)], dtype=bool)
+            yield {"mask": m, "values": gens.reals(rng, (n,))}
+    for _ in range(gens.budget(tier, 400, 5000)):
+        n = rng.randint(10, 40)
+        while True:
+            m = np.array([rng.random() < 0.5 for _ in range(n)], dtype=bool)
+            if not m.all():
+                break
+        yield {"mask": m, "values": gens.reals(rng, (n,))}
+
+
+@bounded("C01", "structures-1d-round-trips", gen=_gen_1d, nontrivial=_nontrivial_mask)
+def structures_1d_round_trips(mask, values):
+    """C01: 'In one and two dimensions, converting slim to native and back returns the identical slim values, and
+    converting native to slim and back returns the native values with masked positions zeroed' (1D: Array1D and Grid1D,
+    slim = the unmasked entries left to right, both storage modes, and the 1D slim->native index list is the matching
+    bijection); bound: every 1D mask of length <= 9 (13) + 400 (5000) random masks of length 10..40."""
+    import autoarray as aa
+    from autoarray.mask import mask_1d_util
+    n = mask.shape[0]
+    mk = aa.Mask1D(mask=mask.copy(), pixel_scales=2.0, origin=(1.5,))
+    want_slim = values[~mask]
+    want_native = np.where(mask, 0.0, values)
+    N = want_slim.shape[0]
+    if int(mk.pixels_in_mask) != N:
+        return "Mask1D.pixels_in_mask = %r, but %d pixels are unmasked" % (mk.pixels_in_mask, N)
+    nfs = np.asarray(mask_1d_util.native_index_for_slim_index_1d_from(mask_1d=mask.copy()))
+    if nfs.shape != (N,) or nfs.astype(int).tolist() != np.flatnonzero(~mask).tolist():
+        return "1D native_index_for_slim_index is not the list of unmasked positions left to right: %r" % nfs.tolist()
+    for cls in (aa.Array1D, aa.Grid1D):
+        name = cls.__name__
+        for store_native in (False, True):
+            # native -> slim -> native
+            a = cls(values=values.copy(), mask=mk, store_native=store_native)
+            for lab, s, want in ((".slim", a.slim, want_slim), (".slim.native", a.slim.native, want_native),
+                                 (".slim.native.slim", a.slim.native.slim, want_slim),
+                                 (".native.slim", a.native.slim, want_slim),
+                                 (".native.slim.native", a.native.slim.native, want_native)):
+                msg = _expect("%s(native input, store_native=%s)%s" % (name, store_native, lab), s, want, want.shape)
+                if msg:
+                    return msg
+            # slim -> native -> slim
+            b = cls(values=want_slim.copy(), mask=mk, store_native=store_native)
+            for lab, s, want in ((".slim", b.slim, want_slim), (".native", b.native, want_native),
+                                 (".native.slim", b.native.slim, want_slim),
+                                 (".slim.native.slim", b.slim.native.slim, want_slim),
+                                 (".native.slim.native", b.native.slim.native, want_native)):
+                msg = _expect("%s(slim input, store_native=%s)%s" % (name, store_native, lab), s, want, want.shape)
+                if msg:
+                    return msg
     return None
